@@ -100,12 +100,10 @@ Definition p_charAt := "String.prototype.charAt".
 Definition p_charCodeAt := "String.prototype.charCodeAt".
 Definition p_toExponential := "Number.prototype.toExponential".
 Definition p_toPrecision := "Number.prototype.toPrecision".
-Definition p_toLocaleString := "Number.prototype.toLocaleString".
 Definition p_lastIndexOf := "String.prototype.lastIndexOf".
 Definition p_substr := "String.prototype.substr".
 Definition p_assign := "Object.assign".
 Definition p_gopd := "Object.getOwnPropertyDescriptor".
-Definition p_fromCharCode := "String.fromCharCode".
 Definition array_mutators := ["Array.prototype.pop"; "Array.prototype.push"; "Array.prototype.shift";
   "Array.prototype.unshift"; "Array.prototype.splice"; "Array.prototype.reverse"; "Array.prototype.sort"].
 Definition object_mutators := ["Object.assign"; "Object.defineProperty"; "Object.defineProperties";
@@ -120,56 +118,38 @@ Definition is_script_fn (a : Z * Z) : bool :=
 Definition str_caller : Z * Z := (9, 35).
 Definition pair_eqb (a b : Z * Z) : bool := (fst a =? fst b) && (snd a =? snd b).
 
-(* numeric argument of toExponential/toPrecision that is safely inside 0..20 *)
-Definition small_digits (a : Z * Z) : bool :=
-  let '(k, i) := a in
-  (k =? 0) || (k =? 1) || (k =? 2) || (k =? 4) || (k =? 5) || ((k =? 3) && (i <=? 5)) || (k =? 18).
-
-(* Regions where the pinned tree has a crash defect whose exact outcome
-   depends on more than the kinds: the model declines there (the harness stays
-   out, apart from the pinned witnesses below). *)
+(* The one region left where the tree has a crash defect whose exact outcome
+   depends on more than the kinds (C02-bridged-mutation): the model declines
+   there; the harness stays out, apart from the pinned witnesses below.  The
+   regions of the findings repaired by fcf1d85, 77055e2, 27b5748, ad26824,
+   8a02cb3, 06c26f0 are gone: those calls are judged like any other. *)
 Definition in_region (path : string) (k : vkind) (rk : Z) (args : list (Z * Z)) : bool :=
-  (* C02-number-format-digits *)
-  ((String.eqb path p_toExponential || String.eqb path p_toPrecision) &&
-     match args with [] => false | a :: _ => negb (small_digits a) end)
-  (* C02-tolocalestring-tag *)
-  || (String.eqb path p_toLocaleString && accepted (thisClassObject cNumber k) &&
-        match args with [] => false | (ak, _) :: _ => negb (ak =? 0) end)
-  (* C02-string-position-overflow *)
-  || (String.eqb path p_lastIndexOf && (2 <=? Z.of_nat (List.length args)) && ((argn_kind 1 args =? 7) || ((9 <=? argn_kind 1 args) && negb (argn_kind 1 args =? 18))))
-  || (String.eqb path p_substr && (2 <=? Z.of_nat (List.length args)) &&
-        ((argn_kind 1 args =? 6) || (argn_kind 1 args =? 7) || ((9 <=? argn_kind 1 args) && negb (argn_kind 1 args =? 18))))
-  (* C02-assign-primitive-target *)
-  || (String.eqb path p_assign && match args with [] => false | (ak, _) :: _ => negb (arg_is_object ak) end)
-  (* C02-bridged-mutation *)
-  || (mem_str path array_mutators && is_bridged_recv rk)
-  || (mem_str path object_mutators && existsb (fun a => fst a =? 17) args)
-  (* C02-charat-receiver with an argument whose ToNumber may run user code first *)
-  (* ... or, for an object receiver, with an index that may be negative: stringAt
-     then never touches the nil string *)
-  || ((String.eqb path p_charAt || String.eqb path p_charCodeAt) &&
-        match charAt_prelude k with
-        | PRaise (Raw _) => arg_is_object (arg0_kind args) ||
-                            (match k with KObject _ => true | _ => false end &&
-                             match args with [] => false | (ak, _) :: _ => (ak =? 4) || (ak =? 6) || (ak =? 9) || (ak =? 10) || (ak =? 18) end)
-        | _ => false end)
-  (* C02-utf16-string-tonumber when an argument's own conversion may throw first *)
-  || (String.eqb path p_fromCharCode && existsb (fun a => arg_may_throw (fst a)) args).
+  (mem_str path array_mutators && is_bridged_recv rk)
+  || (mem_str path object_mutators && existsb (fun a => fst a =? 17) args).
 
-(* pinned witnesses inside the regions: path, receiver, arguments, observed on
-   the pinned tree, what ES5 / the property asks for, finding class *)
+(* pinned calls: path, receiver, arguments, what otto does, what ES5 / the
+   property asks for, finding class.  Open finding: the three bridged
+   mutations.  The others are the witnesses of repaired findings, kept as
+   regression cases: model and expectation are the ES5 outcome, so the old
+   behaviour coming back is a violation. *)
 Open Scope string_scope.
 Definition pinned_calls : list (string * (Z * Z) * list (Z * Z) * Z * expn * Z) := [
-  (p_toExponential, (3, 0), [(7, 0)], 9, Exactly RangeErr, 2);
-  (p_toPrecision, (3, 0), [(7, 0)], 9, Exactly RangeErr, 2);
-  (p_toExponential, (3, 0), [(3, 7)], 0, Exactly RangeErr, 2);
-  (p_toLocaleString, (3, 0), [(9, 30)], 9, JSLevel, 3);
-  (p_lastIndexOf, (4, 0), [(9, 2); (7, 7)], 9, JSLevel, 4);
-  (p_substr, (4, 0), [(3, 1); (7, 7)], 9, JSLevel, 4);
-  (p_assign, (0, 0), [(3, 4); (9, 0)], 9, JSLevel, 6);
   ("Array.prototype.pop", (12, 0), [], 9, JSLevel, 7);
   ("Array.prototype.push", (12, 0), [(8, 0)], 9, JSLevel, 7);
-  ("Array.prototype.push", (13, 2), [(3, 1)], 9, JSLevel, 7)
+  ("Array.prototype.push", (13, 2), [(3, 1)], 9, JSLevel, 7);
+  (* fcf1d85: 15.7.4.6 step 7, 15.7.4.7 step 8 *)
+  (p_toExponential, (3, 0), [(7, 0)], RangeErr, Exactly RangeErr, 0);
+  (p_toPrecision, (3, 0), [(7, 0)], RangeErr, Exactly RangeErr, 0);
+  (p_toExponential, (3, 0), [(3, 7)], RangeErr, Exactly RangeErr, 0);
+  (* 8a02cb3 *)
+  (p_charAt, (3, 0), [(3, 0)], 0, Exactly 0, 0);
+  (p_charCodeAt, (2, 0), [(3, 0)], 0, Exactly 0, 0);
+  (p_charAt, (4, 0), [(3, 1)], 0, Exactly 0, 0);
+  (* 27b5748 *)
+  (p_lastIndexOf, (4, 0), [(9, 2); (7, 7)], 0, Exactly 0, 0);
+  (p_substr, (4, 0), [(3, 1); (7, 7)], 0, Exactly 0, 0);
+  (* ad26824 *)
+  (p_assign, (0, 0), [(3, 4); (9, 0)], 0, Exactly 0, 0)
 ].
 Close Scope string_scope.
 
@@ -203,12 +183,7 @@ Definition verdict_call (path : string) (route rk ri : Z) (args : list (Z * Z)) 
       | None =>
           if in_region path k rk args then declined
           else if (String.eqb path p_gopd) && match args with a :: b :: _ => is_script_fn a && pair_eqb b str_caller | _ => false end
-          then judge_exp obs (Exactly 9) spec 8
-          else if (String.eqb path p_charAt || String.eqb path p_charCodeAt) &&
-                  match charAt_prelude k with PRaise (Raw _) => true | _ => false end
-          then judge_exp obs (Exactly 9) spec 1
-          else if String.eqb path p_fromCharCode
-          then judge_exp obs (Exactly 13) spec 12   (* the UTF-16 backed string it returns cannot be converted to a number *)
+          then judge_exp obs (Exactly 9) spec 8   (* C02-caller-descriptor, still open *)
           else judge_exp obs (expect o k args) spec (disc_class path route rk e o)
       end
   end.
@@ -216,13 +191,18 @@ Definition verdict_call (path : string) (route rk ri : Z) (args : list (Z * Z)) 
 (* ------------------------------------------------------- source text stream *)
 
 Definition pinned_sources : list (Z * list Z) := [
-  (15, [110; 101; 119; 32; 40; 77; 97; 116; 104; 46; 109; 97; 120; 46; 98; 105; 110; 100; 40; 110; 117; 108; 108; 41; 41; 40; 49; 41]) (* new (Math.max.bind(null))(1) *);
-  (12, [43; 83; 116; 114; 105; 110; 103; 46; 102; 114; 111; 109; 67; 104; 97; 114; 67; 111; 100; 101; 40; 52; 57; 41]) (* +String.fromCharCode(49) *);
   (9, [116; 104; 114; 111; 119; 32; 123; 116; 111; 83; 116; 114; 105; 110; 103; 58; 32; 102; 117; 110; 99; 116; 105; 111; 110; 40; 41; 123; 32; 116; 104; 114; 111; 119; 32; 49; 32; 125; 125]) (* throw {toString: function(){ throw 1 }} *);
   (10, [102; 117; 110; 99; 116; 105; 111; 110; 32; 102; 40; 41; 123; 97; 58; 32; 105; 102; 40; 49; 41; 32; 98; 114; 101; 97; 107; 32; 97; 59; 32; 114; 101; 116; 117; 114; 110; 32; 55; 125; 32; 116; 121; 112; 101; 111; 102; 32; 102; 40; 41]) (* function f(){a: if(1) break a; return 7} typeof f() *);
-  (11, [118; 97; 114; 32; 111; 61; 123; 125; 59; 32; 79; 98; 106; 101; 99; 116; 46; 100; 101; 102; 105; 110; 101; 80; 114; 111; 112; 101; 114; 116; 121; 40; 111; 44; 39; 120; 39; 44; 123; 103; 101; 116; 58; 102; 117; 110; 99; 116; 105; 111; 110; 40; 41; 123; 114; 101; 116; 117; 114; 110; 32; 49; 125; 44; 99; 111; 110; 102; 105; 103; 117; 114; 97; 98; 108; 101; 58; 116; 114; 117; 101; 125; 41; 59; 32; 79; 98; 106; 101; 99; 116; 46; 100; 101; 102; 105; 110; 101; 80; 114; 111; 112; 101; 114; 116; 121; 40; 111; 44; 39; 120; 39; 44; 123; 119; 114; 105; 116; 97; 98; 108; 101; 58; 116; 114; 117; 101; 125; 41; 59; 32; 79; 98; 106; 101; 99; 116; 46; 103; 101; 116; 79; 119; 110; 80; 114; 111; 112; 101; 114; 116; 121; 68; 101; 115; 99; 114; 105; 112; 116; 111; 114; 40; 111; 44; 39; 120; 39; 41]) (* var o={}; Object.defineProperty(o,'x',{get:function(){return 1},configurable:true}); Object.defineProperty(o,'x',{writable:true}); Object.getOwnPropertyDescriptor(o,'x') *);
-  (8, [79; 98; 106; 101; 99; 116; 46; 103; 101; 116; 79; 119; 110; 80; 114; 111; 112; 101; 114; 116; 121; 68; 101; 115; 99; 114; 105; 112; 116; 111; 114; 40; 102; 117; 110; 99; 116; 105; 111; 110; 40; 41; 123; 125; 44; 32; 39; 99; 97; 108; 108; 101; 114; 39; 41]) (* Object.getOwnPropertyDescriptor(function(){}, 'caller') *);
-  (1, [83; 116; 114; 105; 110; 103; 46; 112; 114; 111; 116; 111; 116; 121; 112; 101; 46; 99; 104; 97; 114; 65; 116; 46; 99; 97; 108; 108; 40; 53; 44; 48; 41]) (* String.prototype.charAt.call(5,0) *)
+  (8, [79; 98; 106; 101; 99; 116; 46; 103; 101; 116; 79; 119; 110; 80; 114; 111; 112; 101; 114; 116; 121; 68; 101; 115; 99; 114; 105; 112; 116; 111; 114; 40; 102; 117; 110; 99; 116; 105; 111; 110; 40; 41; 123; 125; 44; 32; 39; 99; 97; 108; 108; 101; 114; 39; 41]) (* Object.getOwnPropertyDescriptor(function(){}, 'caller') *)
+].
+
+(* witnesses of repaired findings (06c26f0, e04eec8, 11c8465, 8a02cb3), with the outcome ES5 asks for:
+   kept as regression cases, through Run *)
+Definition regression_sources : list (Z * list Z) := [
+  (0, [43; 83; 116; 114; 105; 110; 103; 46; 102; 114; 111; 109; 67; 104; 97; 114; 67; 111; 100; 101; 40; 52; 57; 41]) (* +String.fromCharCode(49) *);
+  (6, [110; 101; 119; 32; 40; 77; 97; 116; 104; 46; 109; 97; 120; 46; 98; 105; 110; 100; 40; 110; 117; 108; 108; 41; 41; 40; 49; 41]) (* new (Math.max.bind(null))(1) *);
+  (0, [118; 97; 114; 32; 111; 61; 123; 125; 59; 32; 79; 98; 106; 101; 99; 116; 46; 100; 101; 102; 105; 110; 101; 80; 114; 111; 112; 101; 114; 116; 121; 40; 111; 44; 39; 120; 39; 44; 123; 103; 101; 116; 58; 102; 117; 110; 99; 116; 105; 111; 110; 40; 41; 123; 114; 101; 116; 117; 114; 110; 32; 49; 125; 44; 99; 111; 110; 102; 105; 103; 117; 114; 97; 98; 108; 101; 58; 116; 114; 117; 101; 125; 41; 59; 32; 79; 98; 106; 101; 99; 116; 46; 100; 101; 102; 105; 110; 101; 80; 114; 111; 112; 101; 114; 116; 121; 40; 111; 44; 39; 120; 39; 44; 123; 119; 114; 105; 116; 97; 98; 108; 101; 58; 116; 114; 117; 101; 125; 41; 59; 32; 79; 98; 106; 101; 99; 116; 46; 103; 101; 116; 79; 119; 110; 80; 114; 111; 112; 101; 114; 116; 121; 68; 101; 115; 99; 114; 105; 112; 116; 111; 114; 40; 111; 44; 39; 120; 39; 41]) (* var o={}; Object.defineProperty(o,'x',{get:function(){return 1},configurable:true}); Object.defineProperty(o,'x',{writable:true}); Object.getOwnPropertyDescriptor(o,'x') *);
+  (0, [83; 116; 114; 105; 110; 103; 46; 112; 114; 111; 116; 111; 116; 121; 112; 101; 46; 99; 104; 97; 114; 65; 116; 46; 99; 97; 108; 108; 40; 53; 44; 48; 41]) (* String.prototype.charAt.call(5,0) *)
 ].
 
 Fixpoint find_src (s : list Z) (l : list (Z * list Z)) : option Z :=
@@ -232,32 +212,17 @@ Fixpoint find_src (s : list Z) (l : list (Z * list Z)) : option Z :=
   end.
 
 (* entries 0 Run, 1 Eval, 2 Compile + Run of the script, 3 Call, 4 Get, 5 Set,
-   6 Object / Object.Get / Object.Set / Object.Call, 7 Run then Value.To* *)
-Fixpoint prefix_eqb (p s : list Z) : bool :=
-  match p, s with
-  | [], _ => true
-  | a :: p', b :: s' => (a =? b) && prefix_eqb p' s'
-  | _ :: _, [] => false
-  end.
-Fixpoint contains (p s : list Z) : bool :=
-  prefix_eqb p s || match s with [] => false | _ :: s' => contains p s' end.
-
-(* finding C02-call-empty-program: Otto.Call(source, nil, ...) indexes body[0] of
-   the program parsed from source+"()", which is empty when the source is all
-   comment.  Region: Call with a comment opener anywhere in the text (or a text
-   too long to be carried); pinned witness "//x". *)
-Definition call_region (entry len : Z) (src : list Z) : bool :=
-  (entry =? 3) && ((256 <? len) || contains [47; 47] src || contains [47; 42] src
-                   || contains [60; 33; 45; 45] src || contains [45; 45; 62] src).
-Definition call_pin : list Z := [47; 47; 120].
-
+   6 Object / Object.Get / Object.Set / Object.Call, 7 Run then Value.To*,
+   9 a history of Runs on one runtime, 10 a history of Go API calls on one RegExp *)
 Definition verdict_src (entry len : Z) (src : list Z) (obs : Z) : Z * Z :=
   if obs =? 12 then declined
-  else if (entry =? 3) && zlist_eqb src call_pin then judge_exp obs (Exactly 9) JSLevel 14
-  else if call_region entry len src then declined
   else match (if (entry =? 0) || (entry =? 1) || (entry =? 2) || (entry =? 7) then find_src src pinned_sources else None) with
        | Some c => judge_exp obs (Exactly 9) JSLevel c
-       | None => judge_exp obs JSLevel JSLevel 0
+       | None =>
+           match (if entry =? 0 then find_src src regression_sources else None) with
+           | Some e => judge_exp obs (Exactly e) (Exactly e) 0
+           | None => judge_exp obs JSLevel JSLevel 0
+           end
        end.
 
 (* ------------------------------------------------------------- stack guard *)
@@ -377,14 +342,10 @@ Definition spec_payload (pk : Z) : payload := if pk =? 2 then Raw (BValue VPlain
    accessors: 0 String 1 ToString 2 ToInteger 3 ToFloat 4 ToBoolean 5 Class 6 IsNaN 7 Export
    8 Object.Keys 9 Object.KeysByParent 10 Object.Get 11 Object.Set 12 Object.Call 13 Object.MarshalJSON
    14 Is* 15 Call.
-   Known on the pinned tree: ToInteger/ToFloat/IsNaN on a UTF-16 backed string (class 12);
-   IsNaN is not under catchPanic, so ToNumber of an object that throws escapes (class 13);
-   Object.Set on a bridged nil map (class 7). *)
+   Still open: Object.Set on a bridged nil map (class 7).  ToInteger/ToFloat/IsNaN on a UTF-16
+   backed string (06c26f0) and IsNaN outside catchPanic (239ed11) are repaired: no accessor may panic there. *)
 Definition acc_known (vk acc : Z) : option Z :=
-  if ((vk =? 7) || (vk =? 22)) && ((acc =? 2) || (acc =? 3) || (acc =? 6)) then Some 12
-  else if ((vk =? 11) || (vk =? 12) || (vk =? 19)) && (acc =? 6) then Some 13
-  else if (vk =? 16) && (acc =? 11) then Some 7
-  else None.
+  if (vk =? 16) && (acc =? 11) then Some 7 else None.
 
 Definition verdict_acc (vk acc obs : Z) : Z * Z :=
   match acc_known vk acc with
